@@ -21,27 +21,48 @@ RULE = (
     'schedules by seeded random-walk/PCT over synchronisation operations and statement '
     'boundaries. Non-trivial = the fault/stop landed while at least one other thread was blocked '
     'or mid-operation (>= 1 statement-level pre-emption and >= 2 threads); distinct = '
-    '(configuration, fault, schedule trace) hash')
+    '(configuration, fault, schedule trace) hash. Timing variants of every configuration '
+    '(vlib/qwork.timing_variants, as in C04): timeouts that fire mid-stream because consumers / '
+    'sources sleep, with ignore_error on and off and consumers that retry after TimeoutError. '
+    'Native async scenarios (AsyncIteratorQueue, vlib/aqwork): the asyncio task of one producer '
+    'is cancelled at a random element, either while its source is awaited or while the element is '
+    'being put; consumers stop early through async_dequeue_as_iterator(num_steps=k) / the sync '
+    'twin dequeue_as_iterator(num_steps=k) on a bounded queue fed by practically endless async or '
+    'thread producers')
 ASSUMPTIONS = C04.ASSUMPTIONS + [
     'consumers keep consuming until they see an end or an exception; elements still queued when a failure is observed may be dropped (C05 only forbids duplicates)',
     'maybe_stop() without an exception is only issued on queues whose max_enqueuer is preset or whose producer has started (documented: an unset max_enqueuer means no enqueuer has started)',
     'starvation scenarios: a timed wait expires exactly when no thread is enabled',
+    'async scenarios run on native threads: a case that does not complete within its watchdog (3 s, cases take milliseconds) is run again with twice the watchdog; one expiry is inconclusive, two are a violation; its mechanism key is derived from the scenario and the recorded final state (which tasks are done, enqueue_done, exception), never from the expiry alone',
+    'cancel scenario: a consumer that ends with any exception or with an end of stream is accepted; after a clean end only the tail of the cancelled producer (from the element in flight on) may be missing',
+    'numsteps scenario: elements beyond the k taken (prefetched into the iterator cache or still queued) are dropped; after a chunk has one confirmed hang its remaining scenario cases are skipped (counter async_scn_cases_skipped_after_hang)',
 ]
 REQUIRED = ['async_cases', 'schedules', 'line_preemptions', 'fault_cases', 'stop_cases',
-            'timeout_cases', 'faults_fired', 'stops_issued', 'shim_threading_installed']
+            'timeout_cases', 'faults_fired', 'stops_issued', 'shim_threading_installed',
+            'timing_cases', 'timing_timeouts_fired', 'timing_naps', 'timing_consumer_retries',
+            'timing_put_timeouts', 'async_cancel_cases', 'async_numsteps_cases',
+            'async_numsteps_sync_twin_cases']
 CHUNK_TIMEOUT_S = {'quick': 300, 'thorough': 3000}
 
 
 def plan(tier, seed):
   n_cfg, n_sched = (96, 8) if tier == 'quick' else (800, 40)
   chunks = 32 if tier == 'quick' else 64
-  return [{'chunk': i, 'chunks': chunks, 'n_cfg': n_cfg, 'n_sched': n_sched,
+  sched_chunks = [{'chunk': i, 'chunks': chunks, 'n_cfg': n_cfg, 'n_sched': n_sched,
+           'n_tsched': 4 if tier == 'quick' else 16,
            'rseed': seed} for i in range(chunks)] + [
       {'mode': 'async', 'chunk': j, 'rseed': seed,
        'n': 120 if tier == 'quick' else 4000} for j in range(2 if tier == 'quick' else 8)]
+  # Scenario chunks first: a case that hangs costs two watchdogs of idle wall-clock.
+  n_scn, per = (2, 40) if tier == 'quick' else (8, 400)
+  scn_chunks = [{'mode': 'async_scn', 'scn': scn, 'chunk': j, 'rseed': seed, 'n': per}
+                for j in range(n_scn) for scn in ('cancel', 'numsteps')]
+  return scn_chunks + sched_chunks
 
 
 def scenario(case):
+  if case.get('scn'):
+    return case['scn']
   if case.get('fault'):
     return 'fault'
   if case.get('stop'):
@@ -90,6 +111,8 @@ def run_one(ctx, case):
   if sched.status in ('watchdog', 'step_bound'):
     ctx.inconclusive_case(sched.status, case)
     return
+  if case.get('scn'):
+    return C04.check_timing(ctx, case, sched, log, info)
   if case.get('expect'):
     problems = analyse_timeout(case, sched, log)
   else:
@@ -194,9 +217,89 @@ def run_async_one(ctx, case):
                   mechanism=f'async-queue-{kind}')
 
 
+ASYNC_SCN_WATCHDOG_S = 3.0
+
+
+def gen_cancel_case(rng):
+  """The asyncio task of one async producer is cancelled mid-stream."""
+  P = rng.choice([1, 2, 3])
+  lens = [rng.randint(1, 6) for _ in range(P)]
+  C = rng.choice([1, 2, 3])
+  p = rng.randrange(P)
+  return {'engine': 'async', 'scn': 'cancel', 'P': P, 'lens': lens, 'C': C,
+          'cap': rng.choice([0, 1, 2, 3]),
+          'modes': [rng.choice(['async', 'get', 'batch', 'batch_b']) for _ in range(C)],
+          'cancel': {'p': p, 'at': rng.randrange(lens[p]), 'where': rng.choice(['anext', 'put'])},
+          'delay_seed': rng.randrange(1 << 20), 'watchdog_s': ASYNC_SCN_WATCHDOG_S}
+
+
+def gen_numsteps_case(rng, sync_twin):
+  """Consumers stop early through (async_)dequeue_as_iterator(num_steps=k)."""
+  P = rng.choice([1, 1, 2])
+  C = rng.choice([1, 1, 2])
+  if sync_twin:
+    modes = ['iter_n'] * C
+  else:
+    modes = [rng.choice(['aiter_n', 'aiter_n', 'aiter_n', 'iter_n']) for _ in range(C)]
+    modes[rng.randrange(C)] = 'aiter_n'
+  return {'engine': 'async', 'scn': 'numsteps', 'P': P, 'lens': [3000] * P, 'C': C,
+          'cap': rng.choice([1, 2, 3, 5]), 'modes': modes,
+          'num_steps': [rng.randint(0, 6) for _ in range(C)],
+          'prod_kind': rng.choice(['async', 'async', 'thread']),
+          'delay_seed': rng.randrange(1 << 20), 'watchdog_s': ASYNC_SCN_WATCHDOG_S}
+
+
+def run_async_scn_chunk(ctx, spec):
+  scn = spec['scn']
+  rng = random.Random(spec['rseed'] * 9176 + spec['chunk'] * 131 + {'cancel': 2, 'numsteps': 3}[scn])
+  n = spec['n']
+  if scn == 'cancel':
+    cases = [gen_cancel_case(rng) for _ in range(n)]
+  else:
+    # the sync twins (reference behaviour: the queue is stopped) run first
+    cases = ([gen_numsteps_case(rng, True) for _ in range(n // 4)]
+             + [gen_numsteps_case(rng, False) for _ in range(n - n // 4)])
+  for i, case in enumerate(cases):
+    if run_async_scn_one(ctx, case) == 'hang':
+      # Every further hang costs two watchdogs of wall-clock; one witness per chunk.
+      ctx.count('async_scn_cases_skipped_after_hang', len(cases) - i - 1)
+      break
+
+
+def run_async_scn_one(ctx, case):
+  """Watchdog + one retry: one expiry is inconclusive, two are a violation."""
+  from vlib import aqwork
+  w = case.get('watchdog_s', 30)
+  scn = case['scn']
+  ctx.count(f'async_{scn}_cases')
+  ctx.case(('async', case), case['P'] + case['C'] >= 2)
+  finished, log = aqwork.run_async_case(case, w)
+  if not finished:
+    finished, log = aqwork.run_async_case(case, 2 * w)
+    if not finished:
+      ctx.violation('no_completion_within_watchdog', case,
+                    {'final_state': aqwork._final(log), 'log_tail': log[-20:]},  # pylint: disable=protected-access
+                    mechanism=aqwork.classify_hang(case, log))
+      return 'hang'
+    ctx.inconclusive_case('async scenario case hit the watchdog once', case)
+  ctx.count('async_recv_events', sum(1 for e in log if e[0] == 'recv'))
+  if scn == 'cancel':
+    ctx.count('async_cancels_delivered',
+              sum(1 for e in log if e[0] == 'prod_raise' and e[2] == 'CancelledError'))
+  else:
+    ctx.count('async_numsteps_sync_twin_cases' if 'aiter_n' not in case['modes']
+              else 'async_numsteps_async_cases')
+  for kind, detail in aqwork.analyse(case, log):
+    ctx.violation(kind, case, {'detail': detail, 'log_tail': log[-20:]},
+                  mechanism=f'{scn}:async-queue-{kind}')
+  return 'done'
+
+
 def run_chunk(ctx, spec):
   if spec.get('mode') == 'async':
     return run_async_chunk(ctx, spec)
+  if spec.get('mode') == 'async_scn':
+    return run_async_scn_chunk(ctx, spec)
   rng = random.Random(spec['rseed'] * 1000003 + 29)
   configs = [C04.gen_config(rng) for _ in range(spec['n_cfg'])]
   mine = [c for i, c in enumerate(configs) if i % spec['chunks'] == spec['chunk']]
@@ -211,9 +314,24 @@ def run_chunk(ctx, spec):
         case['p_line'] = [0.05, 0.15, 0.4, 0.0][r]
         case['p_sync'] = [0.3, 0.5, 0.7, 0.0][r]
         run_one(ctx, case)
+  # timeouts that fire mid-stream: sleeping consumers / producers (see qwork.timing_variants)
+  from vlib import qwork
+  trng = random.Random(spec['rseed'] * 7919 + spec['chunk'] + 5005)
+  for cfg in mine:
+    for variant in qwork.timing_variants(cfg, trng):
+      for j in range(spec.get('n_tsched', 8)):
+        case = dict(variant)
+        case['sched_seed'] = trng.randrange(1 << 30)
+        r = j % 4
+        case['strategy'] = 'pct' if r == 3 else 'random'
+        case['p_line'] = [0.05, 0.15, 0.4, 0.0][r]
+        case['p_sync'] = [0.3, 0.5, 0.7, 0.0][r]
+        run_one(ctx, case)
 
 
 def run_case(ctx, case):
+  if case.get('engine') == 'async' and case.get('scn'):
+    return run_async_scn_one(ctx, case)
   if case.get('engine') == 'async':
     return run_async_one(ctx, case)
   run_one(ctx, case)
